@@ -24,7 +24,7 @@ CONTRACTS["model:Compartment.resolve_outflows"] = dict(
     ensures=[
         ("C01.outflow_is_sum_of_links", "self._cached_outflow == sum(l.vals[ti] for l in self.outlinks)"),
         ("C02.flows_nonneg", "all(l.vals[ti] >= 0 for l in self.outlinks)"),
-        ("C02.no_overdraw", "self._cached_outflow <= self.vals[ti]"),
+        ("C01+C02.no_overdraw", "self._cached_outflow <= self.vals[ti]"),   # Compartment.update relies on it: the clip branch is then dead
         ("C02.common_rescale", "all(a.vals[ti] * b._cache == b.vals[ti] * a._cache for a in self.outlinks for b in self.outlinks)"),
         ("C03.fraction_to_people", "all(l.vals[ti] * max(1, sum(x._cache for x in self.outlinks)) == l._cache * self.vals[ti] for l in self.outlinks)"),
     ],
@@ -177,11 +177,43 @@ CONTRACTS["model:TimedCompartment.resolve_outflows"] = dict(
     ensures=[
         ("C02.timed_flows_nonneg", "all(l._vals[i, ti] >= 0 for l in self.outlinks if isinstance(l, TimedLink) for i in range(R))"),
         ("C02.plain_flows_nonneg", "all(implies(not isinstance(l, TimedLink), l.vals[ti] >= 0) for l in self.outlinks)"),
-        ("C02.no_overdraw_per_row", "all(self._cached_outflow[i] <= self._vals[i, ti] for i in range(1, R))"),   # row 0: C05.row0_emptied
-        ("C05.row0_emptied", "self._cached_outflow[0] == self._vals[0, ti]"),
-        ("C05.timed_links_skip_row0", "all(implies(isinstance(l, TimedLink), l._vals[0, ti] == 0) for l in self.outlinks)"),
+        ("C01+C02.no_overdraw_per_row", "all(self._cached_outflow[i] <= self._vals[i, ti] for i in range(1, R))"),   # row 0: C05.row0_emptied
+        ("C01+C05.row0_emptied", "self._cached_outflow[0] == self._vals[0, ti]"),
+        ("C01+C05.timed_links_skip_row0", "all(implies(isinstance(l, TimedLink), l._vals[0, ti] == 0) for l in self.outlinks)"),
         ("C02.common_rescale_per_row", "all(a._vals[i, ti] * b._cache == b._vals[i, ti] * a._cache for a in self.outlinks if isinstance(a, TimedLink) for b in self.outlinks if isinstance(b, TimedLink) for i in range(1, R))"),
     ],
     frame_props=["C01", "C02"],
+    defined_props=["C02"],
+)
+
+# Stock update of a timed compartment: every row loses its cached outflow, duration-preserving inflows keep their row, the
+# keyring advances by one row and all other inflows enter the last row.  Stated on the total (C01) and per row (C05).
+_tr = "ti - 1"
+CONTRACTS["model:TimedCompartment.update"] = dict(
+    schema=schema,
+    params={"ti": "int"},
+    ghost_params={"R": "int"},
+    requires=["R >= 1", "self._vals.shape[0] == R", "1 <= ti", "ti < self._vals.shape[1]", "len(self._cached_outflow) == R",
+              "all(self._vals[i, ti - 1] >= 0 for i in range(R))",
+              "all(self._cached_outflow[i] >= 0 and self._cached_outflow[i] <= self._vals[i, ti - 1] for i in range(R))",
+              "self._cached_outflow[0] == self._vals[0, ti - 1]",                                   # TimedCompartment.resolve_outflows: C05.row0_emptied
+              # duration-preserving inflows come from the same duration group: same number of rows.  (The two branches of the code
+              # for a source group with a different duration -- transfers between populations with different durations -- are
+              # outside this contract and listed as not decided.)
+              "all(implies(isinstance(l, TimedLink), l._vals.shape[0] == R and ti - 1 < l._vals.shape[1]) for l in self.inlinks)",
+              "all(l._vals[i, ti - 1] >= 0 for l in self.inlinks if isinstance(l, TimedLink) for i in range(l._vals.shape[0]))",
+              "all(implies(isinstance(l, TimedLink), l._vals[0, ti - 1] == 0) for l in self.inlinks)",     # resolve_outflows / balance: C05.timed_links_skip_row0
+              "all(implies(not isinstance(l, TimedLink), ti - 1 < len(l.vals) and l.vals[ti - 1] >= 0) for l in self.inlinks)"],
+    modifies=["self._vals[:, ti]"],
+    ensures=[
+        ("C02.rows_nonneg", "all(self._vals[i, ti] >= 0 for i in range(R))"),
+        # C01 for a timed compartment is stated row by row (the three clauses below determine every row of the new column from
+        # recorded quantities only); adding the rows up needs an index shift and an exchange of two finite sums, which is not
+        # mechanised here (DESIGN.md, C01 "not decided").
+        ("C01.single_row_balance", "implies(R == 1, self._vals[0, ti] == old(self._vals[0, ti - 1]) - self._cached_outflow[0] + sum(l._vals[0, ti - 1] for l in self.inlinks if isinstance(l, TimedLink)) + sum(l.vals[ti - 1] for l in self.inlinks if not isinstance(l, TimedLink)))"),
+        ("C01+C05.last_row_holds_only_restarting_arrivals", "implies(R >= 2, self._vals[R - 1, ti] == sum(l.vals[ti - 1] for l in self.inlinks if not isinstance(l, TimedLink)))"),
+        ("C01+C05.keyring_advances_one_row", "all(self._vals[j, ti] == old(self._vals[j + 1, ti - 1]) - self._cached_outflow[j + 1] + sum(l._vals[j + 1, ti - 1] for l in self.inlinks if isinstance(l, TimedLink)) for j in range(R - 1))"),
+    ],
+    frame_props=["C01", "C02", "C05"],
     defined_props=["C02"],
 )
